@@ -282,6 +282,8 @@ def check(run):
     route_algebra_rules(run)
     run.clause('the hop tolerates re-entrancy: forwarding may deliver a packet into this same queue (half-duplex link); the sender is never started twice')
     reentrancy_rule(run)
+    run.clause('packets cross the network hops of their own direction: channel_route is asked for (sender, destination)')
+    channel_route_direction_rule(run)
     run.floor('R10', 2)
     run.floor('R4', 3)
 
@@ -561,3 +563,37 @@ def reentrancy_rule(run):
     run.check(ok, 'R16', 'hop-reentrancy', Q + '::next_packet_sent', ns.loc(late[0]) if late else ns.loc(),
               'next_packet_sent() starts the next departure after forward_packet(): when forwarding re-enters incoming_packet() of this queue (a hop shared by both directions) the sender has already been started for the new packet and is started again - the timer is armed twice, one packet is taken twice (front() of an empty deque) or the two completions cancel each other forever',
               how)
+
+
+def channel_route_direction_rule(run):
+    """configuration::channel_route(src, dst) is asked for the direction the packets will travel: the first argument
+    derives from the SENDING socket, the second from the destination endpoint (a configuration whose network hops differ
+    per direction - asymmetric links, a NAT on one side - otherwise carries the datagrams over the reverse direction's hops)."""
+    fx = run.fx
+    CR = 'sim::configuration::channel_route'
+    n = 0
+    for fname, src_roots, dst_roots in (('sim::simulation::find_udp_socket', ('socket',), ('ep',)), ('sim::simulation::internal_connect', ('s', 'from'), ('target',))):
+        f = fx.fn1(fname)
+        run.touch(f)
+        pn = [p.get('name') for p in f.params]
+        calls = [c for c in f.calls() if q.callee_name(c) == CR or (q.callee_name(c) or '').endswith('::channel_route')]
+        for c in calls:
+            n += 1
+            def roots(e, depth=0):
+                out = set()
+                for x in walk(e):
+                    if x['k'] == 'ref' and x.get('dk') == 'param':
+                        out.add(x.get('name'))
+                    elif x['k'] == 'ref' and x.get('dk') == 'local' and depth < 3:
+                        for _s, d_ in q.local_defs(f, x['did']):
+                            out |= roots(d_, depth + 1)
+                return out
+            r0, r1 = roots(c['args'][0]), roots(c['args'][1])
+            # the sending side is the first parameter of the function (the socket), the destination the endpoint parameter
+            send_p, dst_p = pn[0], pn[1] if len(pn) > 1 else None
+            ok = send_p in r0 and dst_p in r1 and dst_p not in r0 and send_p not in r1
+            run.check(ok, 'R4', 'channel-route-direction', '%s: channel_route(%s, %s)' % (fname, q.render(f, c['args'][0])[:30], q.render(f, c['args'][1])[:30]), f.loc(c),
+                      'channel_route is asked for (%s, %s): its first argument must come from the sending socket (%s) and its second from the destination (%s) - swapped, the packets cross the network hops configured for the opposite direction' % (sorted(r0), sorted(r1), send_p, dst_p),
+                      'asked for (sender, destination)')
+    if n < 2:
+        run.broke('fewer than 2 calls of configuration::channel_route found (find_udp_socket, internal_connect)')
